@@ -58,6 +58,12 @@ def build(e):
             return jnp.where(ev(e[1], X) > q(e[2]), ev(e[3], X), ev(e[4], X))
         if k == "cond":
             return jax.lax.cond(ev(e[1], X) > q(e[2]), lambda Y: ev(e[3], Y), lambda Y: ev(e[4], Y), X)
+        if k == "cond2mul":
+            a, b = jax.lax.cond(ev(e[1], X) > q(e[2]), lambda Y: (ev(e[3], Y), ev(e[4], Y)), lambda Y: (ev(e[5], Y), ev(e[6], Y)), X)
+            return a * b
+        if k == "switch3":
+            i = jnp.clip(ev(e[1], X).astype(jnp.int32), 0, 2)
+            return jax.lax.switch(i, [lambda Y: ev(e[2], Y), lambda Y: ev(e[3], Y), lambda Y: ev(e[4], Y)], X)
         if k == "dynidx":
             v = ev(e[1], X)
             return v[jnp.argmax(v)]
@@ -147,7 +153,7 @@ def run(tier, argv):
     c = cases[len(cases) // 2]
     chk.sample({"program": c[1], "arg_type": c[2], "primal": list(c[4]), "tangent": list(c[5])})
     chk.cov["rule"] = ("every (program of the ADEVDet.tla corpus: arithmetic, integer_pow, division, reductions, indexing, slicing, transpose, dot, "
-                       "matmul, where, cond (either branch), integer intermediates) x (argument point, tangent seed) for scalar, vector, matrix "
+                       "matmul, where, cond (either branch; two outputs), switch over three branches, integer intermediates, integer operands) x (argument point, tangent seed) for scalar, vector, matrix "
                        "and pytree arguments; jvp_estimate / grad_estimate / estimate (also under jit) against the exact dual-number values and "
                        "jax.jvp / jax.grad")
     chk.cov["exhaustive"] = True
